@@ -278,7 +278,7 @@ def generate(prop, seed, tier):
     rounds = []
     # data far below / above the unfitted defaults (p0 ~ 1) make a premature or
     # stale fit land on the bounds; only for linear DAGs (exponents stay sane)
-    yscale = S.wpick([(1.0, 10), (0.1, 4), (0.03, 4), (10.0, 2), (1e3, 1), (1e5, 1)]) if linear_run else 1.0
+    yscale = S.wpick([(1.0, 10), (0.1, 4), (0.03, 4), (10.0, 2), (1e3, 1), (1e5, 1), (1e-3, 1)]) if linear_run else 1.0
     for r in range(n_rounds):
         truth = []
         for f in funcs:
